@@ -12,24 +12,24 @@ import "encoding/binary"
 type Role uint8
 
 const (
-	Fd            Role = iota + 1 // file descriptor
-	PtrOut                        // pointer to a fixed-size result (Size bytes)
-	PtrBufOut                     // pointer to an output buffer whose byte length is parameter Pair
-	LenBufOut                     // byte length of the output buffer at parameter Pair
-	PtrPath                       // pointer to an input string whose length is parameter Pair
-	LenPath                       // length of the string at parameter Pair
-	PtrIovsOut                    // pointer to an iovec array (8 bytes each) whose targets are OUTPUT; count is parameter Pair
-	PtrIovsIn                     // pointer to a ciovec array (input only); count is parameter Pair
-	CountIovs                     // number of iovecs at parameter Pair
-	PtrSubs                       // poll_oneoff: pointer to subscriptions (48 bytes each), count is parameter Pair
-	PtrEvents                     // poll_oneoff: pointer to the event output array (32 bytes each), count is parameter Pair
-	CountSubs                     // poll_oneoff: number of subscriptions
-	PtrVecOut                     // args_get/environ_get: pointer array, 4 bytes per configured value
-	PtrVecBufOut                  // args_get/environ_get: string data, size known from the configuration
-	Flags                         // bit set (Defined = mask of the bits the documentation defines)
-	Enum                          // small enumeration 0..Max
-	U64                           // 64-bit scalar; Kind says which (offset, size, cookie, timestamp, rights, precision)
-	U32                           // 32-bit scalar without structure (exit code, signal)
+	Fd           Role = iota + 1 // file descriptor
+	PtrOut                       // pointer to a fixed-size result (Size bytes)
+	PtrBufOut                    // pointer to an output buffer whose byte length is parameter Pair
+	LenBufOut                    // byte length of the output buffer at parameter Pair
+	PtrPath                      // pointer to an input string whose length is parameter Pair
+	LenPath                      // length of the string at parameter Pair
+	PtrIovsOut                   // pointer to an iovec array (8 bytes each) whose targets are OUTPUT; count is parameter Pair
+	PtrIovsIn                    // pointer to a ciovec array (input only); count is parameter Pair
+	CountIovs                    // number of iovecs at parameter Pair
+	PtrSubs                      // poll_oneoff: pointer to subscriptions (48 bytes each), count is parameter Pair
+	PtrEvents                    // poll_oneoff: pointer to the event output array (32 bytes each), count is parameter Pair
+	CountSubs                    // poll_oneoff: number of subscriptions
+	PtrVecOut                    // args_get/environ_get: pointer array, 4 bytes per configured value
+	PtrVecBufOut                 // args_get/environ_get: string data, size known from the configuration
+	Flags                        // bit set (Defined = mask of the bits the documentation defines)
+	Enum                         // small enumeration 0..Max
+	U64                          // 64-bit scalar; Kind says which (offset, size, cookie, timestamp, rights, precision)
+	U32                          // 32-bit scalar without structure (exit code, signal)
 )
 
 var roleNames = map[Role]string{Fd: "fd", PtrOut: "ptr-out", PtrBufOut: "ptr-buf-out", LenBufOut: "len-buf-out", PtrPath: "ptr-path",
@@ -89,10 +89,10 @@ type Func struct {
 	NoRet  bool   // proc_exit: no result, never returns
 }
 
-func fd() Param                   { return Param{Name: "fd", Role: Fd, Pair: -1} }
+func fd() Param                     { return Param{Name: "fd", Role: Fd, Pair: -1} }
 func out(n string, sz uint32) Param { return Param{Name: n, Role: PtrOut, Size: sz, Pair: -1} }
-func u64(n, kind string) Param    { return Param{Name: n, Role: U64, I64: true, Kind: kind, Pair: -1} }
-func u32(n, kind string) Param    { return Param{Name: n, Role: U32, Kind: kind, Pair: -1} }
+func u64(n, kind string) Param      { return Param{Name: n, Role: U64, I64: true, Kind: kind, Pair: -1} }
+func u32(n, kind string) Param      { return Param{Name: n, Role: U32, Kind: kind, Pair: -1} }
 func flags(n string, def uint32) Param {
 	return Param{Name: n, Role: Flags, Defined: def, Pair: -1}
 }
